@@ -673,7 +673,7 @@ class StartStopSuite(SystemSuite):
         return self._check(case, out)
 
     def finding_class(self, pid, case, out, msg):
-        if case["oracle"].get("relook_mid") is not None and msg.startswith("Look to while the tick"):
+        if case["oracle"].get("relook_mid") is not None and pid in ("C01", "C06"):
             return "look-to-during-tick"
         return None
 
